@@ -68,6 +68,8 @@ type call struct {
 	// fieldNames maps the arguments to struct field names.
 	// This will only be set if kind == structProvider.
 	fieldNames []string
+	// fieldPkgs holds the package declaring each of those fields.
+	fieldPkgs []*types.Package
 
 	// ins is the list of types this call receives as arguments.
 	// This will be nil for kind == valueExpr.
@@ -192,10 +194,12 @@ dfs:
 			index.Set(curr.t, given.Len()+len(calls))
 			kind := funcProviderCall
 			fieldNames := []string(nil)
+			fieldPkgs := []*types.Package(nil)
 			if p.IsStruct {
 				kind = structProvider
 				for _, arg := range p.Args {
 					fieldNames = append(fieldNames, arg.FieldName)
+					fieldPkgs = append(fieldPkgs, arg.fieldPkg)
 				}
 			}
 			calls = append(calls, call{
@@ -205,6 +209,7 @@ dfs:
 				args:       args,
 				varargs:    p.Varargs,
 				fieldNames: fieldNames,
+				fieldPkgs:  fieldPkgs,
 				ins:        ins,
 				out:        curr.t,
 				hasCleanup: p.HasCleanup,
